@@ -1,21 +1,28 @@
 #!/bin/bash
-# seed_matrix.sh [seed dirs...] : apply each seeded patch to /repo, run EVERY property's quick check,
-# record VIOLATION / ok per (seed, property) in seeded/MATRIX.tsv, undo the patch.
+# seed_matrix.sh [seed dirs...] : apply each seeded patch to /repo, run EVERY property's quick check
+# (five at a time), record VIOLATION / ok per (seed, property) in seeded/MATRIX.tsv, undo the patch.
 cd /verif
 SEEDS=${@:-$(ls -d seeded/C*-* | xargs -n1 basename)}
 PROPS=$(python3 -c "import sys; sys.path.insert(0,'/verif'); from checkconf import PROPS; print(' '.join(sorted(PROPS)))")
 OUT=seeded/MATRIX.tsv
 [ -f $OUT ] || echo -e "seed\t$(echo $PROPS | tr ' ' '\t')" > $OUT
+one() {
+  p=$1
+  r=$(./check $p 2>&1 | grep -E "^VIOLATION|: ok " | head -1)
+  if echo "$r" | grep -q "no-failing-input-found"; then v="V?"; elif echo "$r" | grep -q VIOLATION; then v="V"; elif echo "$r" | grep -q ": ok"; then v="."; else v="ERR"; fi
+  echo "$p $v" > work/matrix-$p.res
+}
+export -f one
 for s in $SEEDS; do
   cd /repo; git status --short | grep -q . && { echo "/repo not clean"; exit 3; }
   git apply /verif/seeded/$s/patch.diff || { echo "$s: patch does not apply"; continue; }
   cd /verif
+  rm -f work/matrix-*.res
+  own=${s%-*}
+  one $own                                   # builds the harness against the patched tree first
+  echo $PROPS | tr ' ' '\n' | grep -v "^$own$" | xargs -P 5 -I{} bash -c 'one {}'
   row="$s"
-  for p in $PROPS; do
-    r=$(./check $p 2>&1 | grep -E "^VIOLATION|: ok " | head -1)
-    if echo "$r" | grep -q "no-failing-input-found"; then v="V?"; elif echo "$r" | grep -q VIOLATION; then v="V"; elif echo "$r" | grep -q ": ok"; then v="."; else v="ERR"; fi
-    row="$row\t$v"
-  done
+  for p in $PROPS; do row="$row\t$(cut -d' ' -f2 work/matrix-$p.res 2>/dev/null || echo ERR)"; done
   cd /repo; git checkout -q -- .
   cd /verif
   grep -v "^$s	" $OUT > $OUT.tmp; mv $OUT.tmp $OUT
